@@ -66,7 +66,11 @@ class World:
         self.npatch = npatch
         centers = data.centers_grid(npatch, sep_deg=3.0)
         self.centers = centers
-        self.ref = data.make_catalog(root / "ref", data.frame(seed, n, npatch, sep_deg=3.0, spread_deg=1.6), centers)
+        dref = data.frame(seed, n, npatch, sep_deg=3.0, spread_deg=1.6)
+        # patch 1 has no object in the highest redshift bin (an empty tree next to populated neighbours)
+        sel = (dref["pid"] == 1) & (dref["z"] > 0.69)
+        dref.loc[sel, "z"] = 0.2 + 0.4 * (dref.loc[sel, "z"] - 0.69)
+        self.ref = data.make_catalog(root / "ref", dref, centers)
         self.unk = data.make_catalog(root / "unk", data.frame(seed + 1, n, npatch, sep_deg=3.0, spread_deg=1.6), centers, redshifts=False)
         self.rnd = data.make_catalog(root / "rnd", data.frame(seed + 2, 2 * n, npatch, sep_deg=3.0, spread_deg=1.6), centers)
         self.config = self.yaw.Configuration.create(rmin=500.0, rmax=5000.0, zmin=0.1, zmax=1.0, num_bins=3)
